@@ -131,7 +131,11 @@ def rule_r1_r2_r3(ctx):
             ctx.check("R1", f"open({norm(c.args[0])}, {m!r}) targets a temp path", tk == {"T"}, f, c,
                       "a file is opened for writing on a non-temp path inside the single-file writer",
                       how="target argument taint", construct=f"open target taint {sorted(tk)}")
-    ctx.require(len(replace_calls) == 1, "exactly one os.replace expected in _write_external_data")
+    ctx.check("R1", "the finished temp file is installed by exactly one os.replace", len(replace_calls) == 1, f, f.node,
+              f"_write_external_data installs the new file with {len(replace_calls)} os.replace call(s): the destination is not "
+              "replaced atomically", how="count of os.replace calls", construct=f"os.replace count {len(replace_calls)}")
+    if len(replace_calls) != 1:
+        return
     # (iii) inside the writer class every open uses self._file_path, which only __init__ binds to the ctor argument
     binds = [n for n in own_nodes(init.node) if isinstance(n, ast.Assign) and norm(n.targets[0]) == "self._file_path"]
     ok = len(binds) == 1 and norm(binds[0].value) == "file_path"
@@ -253,7 +257,11 @@ def rule_r4(ctx):
     f = repo.func(f"{ED}:_write_external_tensors")
     cfg = CFG(f.node)
     chk = [c for c in calls_in(f) if dotted_of(c.func) == "_check_no_existing_shard_files"]
-    ctx.require(len(chk) == 1, "_check_no_existing_shard_files call not found in _write_external_tensors")
+    ctx.check("R4", "_write_external_tensors calls _check_no_existing_shard_files once", len(chk) == 1, f, f.node,
+              "the sharded path does not check for existing destination files: a pre-existing shard is overwritten in place",
+              how="call present", construct=f"existence check calls {len(chk)}")
+    if len(chk) != 1:
+        return
     cn = cfg.nodes_containing(chk[0])[0]
     # shard writes: direct calls and executor.submit(convert_tensors_to_external, …) other than the single-file return
     writes = []
@@ -303,7 +311,12 @@ def rule_r5(ctx):
     cfg = CFG(f.node)
     a = [c for c in calls_in(f) if dotted_of(c.func) == "convert_tensors_from_external"]
     b = [c for c in calls_in(f) if dotted_of(c.func) == "_write_external_tensors"]
-    ctx.require(len(a) == 1 and len(b) == 1, "unload_from_model: load/write calls not found")
+    ctx.require(len(b) == 1, "unload_from_model: _write_external_tensors call not found")
+    if len(a) != 1:
+        ctx.check("R5", "convert_tensors_from_external dominates _write_external_tensors", False, f, b[0],
+                  "small external tensors are not copied to memory before the data files are rewritten", how="call present",
+                  construct="missing convert_tensors_from_external")
+        return
     an, bn = cfg.nodes_containing(a[0])[0], cfg.nodes_containing(b[0])[0]
     ctx.check("R5", "convert_tensors_from_external dominates _write_external_tensors", cfg.dominates(an, bn) and an.id != bn.id, f, b[0],
               "data files are rewritten before the small external tensors that read from them are copied to memory",
